@@ -485,6 +485,13 @@ func (v *Verifier) VerifyFunc(pkg *ssa.Package, c *Contract, pool *Pool) (res *F
 		parts = all
 	}
 	v.cutFired = map[int]bool{}
+	v.budget = 240 * time.Second
+	if s := os.Getenv("GCV_FUNC_BUDGET"); s != "" {
+		if n, err := strconv.Atoi(s); err == nil && n > 0 {
+			v.budget = time.Duration(n) * time.Second
+		}
+	}
+	v.deadline = time.Now().Add(v.budget)
 	if c.Variant != "" {
 		// the variant is part of the name of every obligation (through the partition label)
 		for i := range parts {
